@@ -553,6 +553,24 @@ class SolveLoop:
         R, W = self.eff.of_region(list(body), self.owner)
         return R & W
 
+    def pre_loop_stmts(self) -> list:
+        """top-level statements of solve() that precede the sweep loop"""
+        out = []
+        for st in self.fn.body:
+            if st is self.header.ast or any(x is self.header.ast for x in ast.walk(st)):
+                break
+            out.append(st)
+        return out
+
+    def solve_carried(self) -> set[str]:
+        """attributes that solve() reads BEFORE the loop and writes anywhere (transitively): state a later call starts from"""
+        pre = self.pre_loop_stmts()
+        if not pre:
+            return set()
+        R = self.eff.of_region(list(pre), self.owner)[0]
+        W = self.eff.of_region(list(self.fn.body), self.owner)[1]
+        return set(R) & set(W)
+
     def loop_rw(self):
         return self.eff.of_region(list(self.header.ast.body), self.owner)
 
@@ -562,7 +580,7 @@ class SolveLoop:
         everything a statement containing `break` / `return` / a save reads, and from the loop's own tests.  An attribute
         that is carried from sweep to sweep but never flows into any of these (a timer, a counter kept for reporting) is
         not part of the state a resumed run must reproduce."""
-        stmts = list(self.header.ast.body)
+        stmts = list(self.header.ast.body) + self.pre_loop_stmts()
         facts = []
         for st in stmts:
             R, W = self.eff.of_region([st], self.owner)
